@@ -171,7 +171,8 @@ void BitSequenceDArray::build(uint *buf, size_t n) {
   delete[] s;
   /*this is for compute rank*/
   rl = new uint[n / RR + 2];
-  rs = new uchar[n / RRR + 2];
+  // (the loop below fills whole superblocks of RR bits, also the last one)
+  rs = new uchar[(n / RR + 1) * (RR / RRR) + 2];
   for (i = 0; i < (int)(n / RR + 2); i++) {
     rl[i] = 0;
   }
